@@ -64,15 +64,15 @@ def bounds(tier):
             knn=[dict(D=[2], Side=3, Step=3, QMargin=1, MaxPts=5, Orders=1)])
     return dict(
         # run 0: complete in the parameters (values beyond the number of candidates behave alike)
-        # run 1: up to 6 candidates and 4 sectors, parameters up to 7 on a coarser grid
-        neigh=[dict(MaxN=4, MaxDir=4, PVals=[0, 1, 2, 3, 4, 5, 6, 7], Salts=[s], Rich=True, Emit=True, EmitMod=4,
+        # run 1: up to 6 candidates and 4 sectors, parameter values 0, 1, 3, 7
+        neigh=[dict(MaxN=4, MaxDir=4, PVals=[0, 1, 2, 3, 4, 5, 6, 7], Salts=[s], Rich=True, Emit=True, EmitMod=6,
                     FullN=3, FullDir=4),
-               dict(MaxN=6, MaxDir=4, PVals=[0, 1, 2, 4, 7], Salts=[s + 1], Rich=True, Emit=True, EmitMod=8,
+               dict(MaxN=6, MaxDir=4, PVals=[0, 1, 3, 7], Salts=[s + 1], Rich=True, Emit=True, EmitMod=6,
                     FullN=0, FullDir=0)],
         knn=[dict(D=[1], Side=7, Step=2, QMargin=2, MaxPts=6, Orders=2),
-             dict(D=[2], Side=3, Step=3, QMargin=2, MaxPts=7, Orders=2),
-             dict(D=[2], Side=4, Step=2, QMargin=1, MaxPts=4, Orders=1),
-             dict(D=[3], Side=2, Step=3, QMargin=1, MaxPts=7, Orders=2)])
+             dict(D=[2], Side=3, Step=3, QMargin=2, MaxPts=7, Orders=1),
+             dict(D=[2], Side=4, Step=2, QMargin=1, MaxPts=3, Orders=1),
+             dict(D=[3], Side=2, Step=3, QMargin=1, MaxPts=7, Orders=1)])
 
 
 MC_CFG = """SPECIFICATION Spec
@@ -395,11 +395,16 @@ def knn_part(ck, tier, exe, B):
     ch = Chunks(w, "k")
 
     nontrivial = set()
+    probes = []      # cases with fewer points than dimensions (see the known finding C06-ball-vvd-ctor-free)
 
     def on_emit(c):
         c["id"] = case_id([c["dim"], c["pts"], c["q"]])
         if len(c["pts"]) >= 2:
             nontrivial.add(c["id"])
+        if len(c["pts"]) < c["dim"] and c["euc"]["ok"]:
+            probes.append(dict(c, force_vvd=True))
+            probes.sort(key=lambda x: x["id"])
+            del probes[3:]
         ch.write(c)
 
     for j, b in enumerate(B["knn"]):
@@ -424,12 +429,23 @@ def knn_part(ck, tier, exe, B):
     dims = set()
     samples = Samples(2)
     dis = Disagreements()
+    # the Ball(VectorVectorDouble) constructor on fewer points than dimensions: each probe in its own process
+    for j, pc in enumerate(probes):
+        pf, po = os.path.join(w, "kprobe_%d.ndjson" % j), os.path.join(w, "kprobe_obs_%d.ndjson" % j)
+        vlib.write_ndjson(pf, [pc])
+        r = subprocess.run([exe, "knn", pf, po], stdout=subprocess.DEVNULL, stderr=subprocess.DEVNULL)
+        ck.add("knn_vvd_ctor_probes")
+        if r.returncode != 0:
+            dis.add({"kind": "knn", "what": "crash", "ctor": "Ball(VectorVectorDouble)", "npts_lt_dim": True},
+                    pc["id"], lambda: {"points": pc["pts"], "query": pc["q"], "exit": r.returncode,
+                                       "how": "Ball ball(data /* [dim][npts] */, nullptr, 1, 1) with npts < dim"})
     for casefile, obsfile in zip(ch.cases, ch.outs):
         for c, obs in lockstep(casefile, obsfile):
             dims.add(c["dim"])
             for o in obs:
                 if "crash" in o:
-                    dis.add({"kind": "knn", "what": "crash", "signal": o["crash"], "dim": c["dim"]}, c["id"],
+                    dis.add({"kind": "knn", "what": "crash", "signal": o["crash"], "dim": c["dim"],
+                             "npts_lt_dim": False}, c["id"],
                             lambda: {"points": c["pts"], "query": c["q"], "metric": o.get("m")})
                     continue
                 e = c["euc"] if o["m"] == 1 else c["man"]
